@@ -17,15 +17,27 @@ CHECKS = {
  "C04": ("explicit-state exploration; five-step official cascade evaluated by the reference model on every root and every reached turn start",
          "is_terminal() at every root of the families (every goal square for both colours, alone and in pairs/triples) and at every turn-start state reached by play is compared with the reference cascade (goal of previous mover, goal of mover, elimination of mover, elimination of previous mover, immobilisation); every mid-turn state may report a result only when nothing is offered; the 2^5 condition vectors observed are tabulated.",
          "Trusted: reference model's legal-step generator for 'no legal step'.", "DESIGN.md §4 C04"),
+ "C05": ("explicit-state exploration of whole confined games to fix-point (all histories the configuration admits) against exact, never-forgotten board histories",
+         "E2 explores every game of each confined configuration breadth-first until no new state appears (or to a stated turn bound), following every offered action inside the domains; at every turn-ending transition the new board must differ from the explorer's snapshot of the turn-start board and (board, side) may have occurred at most once before in the explorer's exact list of turn-start positions, which is never cleared at captures. E1 adds the 'board unchanged' half on every family.",
+         "Window/material bound of the configurations; 64-bit hash collisions between boards outside the explored set are not addressed.", "DESIGN.md §2.2, §4 C05"),
+ "C06": ("explicit-state exploration (E2 games to fix-point, E1 families); offered list compared, order preserved, with the rule-only list filtered by the exact repetition rule",
+         "In every state of E2 and E1: valid_actions() must equal valid_actions_no_rep() minus exactly the turn-ending actions whose resulting board equals the turn-start board or would be the third turn-start occurrence of (board, side) in the explorer's exact never-forgotten history; same order; nothing else withheld. States after captures (where the engine forgets its history and the explorer does not) decide the 'forgetting never changes the offer' clause.",
+         "Window/material bound of the configurations.", "DESIGN.md §4 C06"),
  "C07": ("explicit-state exploration of E1 families plus confined whole games to fix-point (E2); summary queries compared with the action lists in every state",
          "In every state of E1, E2 and the setup trie: no result => non-empty offered list; mid-turn result <=> empty list and it is a loss for the mover; has_move, can_pass(true/false) agree with the lists. E2's confined games reach the rare states where everything is withheld by repetition (counted in evidence).",
          "Confined-game material/window bound for the repetition-dependent states.", "DESIGN.md §4 C07"),
  "C08": ("explicit-state exploration; incremental hash compared with from-scratch hash on every state, feature->hash map single-valued across all paths",
          "On every state of E1/E2/E3: transposition_hash equals the from-scratch Zobrist of (board, side, step, status); per root/configuration the map features->hash is single valued over all paths; at every turn end the newest history entry is the from-scratch hash and every entry belongs to a played position; equal (board, side, step) compare and hash equal; parse(print(s)) link on turn-start states of F1, seeds and setup leaves.",
          "Zobrist::from_piece_board is the from-scratch definition (its own injectivity is C17).", "DESIGN.md §4 C08"),
+ "C09": ("complete enumeration of the placement trie (Gold's trie completely; Silver's trie completely after each of several Gold arrangements) on the real engine",
+         "Every placement prefix of Gold (144 M nodes) and, after each of 2 (thorough 24) complete Gold arrangements, every placement prefix of Silver: offered placements = kinds with remaining complement; each placement sets exactly the next home square to (mover, kind) and changes nothing else in the 8 raw fields; side flips after Gold's 16th; after Silver's 16th play starts with Gold, move 2, step 0, nothing pending, history = [from-scratch hash].",
+         "The full 64.8M x 64.8M product is out of reach; Silver's tries are complete for the listed Gold arrangements only.", "DESIGN.md §2.3, §4 C09"),
  "C10": ("explicit-state exploration; view-agreement invariants on every state, printed diagram re-read by an independent fixed-column reader",
          "Every state of E1/E2/E3: per-type boards disjoint, union = all_pieces, p1 subset; every accessor agrees with the raw fields on all 64 squares; printed diagram (read by the harness's own reader) shows the same kind on every square; bit i = file i mod 8, rank 8 - i div 8; counts within the complement; after any action nothing unsupported on a trap.",
          "Diagram comparison is done once per distinct board per worker.", "DESIGN.md §4 C10"),
+ "C11": ("explicit-state exploration in 4-fold lock-step: every state compared with its images under file mirror, colour swap + rank flip, and both (no reference model)",
+         "E1 families (every <=2-piece board, 2x2 fillings, seeds; thorough: 3-piece windows) for one full turn and E2 confined games to fix-point are run in lock-step with their three images: transformed offered and rule-only action sets, results, capture previews and resulting boards must coincide at every step, including which actions the repetition rules withhold.",
+         "Play phase only (setup order is not mirror symmetric by definition).", "DESIGN.md §4 C11"),
  "C12": ("explicit-state exploration; status after every step compared with a transcription of the statement; pending-push list compared with the model",
          "After every step of E1/E2 the reported push/pull status is compared with the deterministic reading of the statement computed from the previous status and the step; at every turn start it is None; while a push is pending the rule-only list must equal the completing steps of unfrozen strictly stronger friends (non-empty).",
          "Trusted: mailbox freezing/strength helpers.", "DESIGN.md §4 C12"),
@@ -44,6 +56,9 @@ CHECKS = {
  "C17": ("complete enumeration of the finite hashed-feature domain on constructed states, pairwise comparison",
          "Every square x every pair of the 13 contents, every kind x every pair of squares, both sides, all step pairs, all C(641,2) pairs of push/pull statuses, in three board contexts: all transposition hashes pairwise different. The domain is finite and enumerated completely.",
          "none.", "DESIGN.md §4 C17"),
+ "C18": ("type checker for Send+Sync, then loom: exhaustive exploration of all thread interleavings (within a preemption bound) of real engine code on a token-substituted copy",
+         "Stage A: 14 public types are Send + Sync (compile-time). Stage B: four harness bodies (concurrent expansion of shared states with a 5-turn history incl. passes and 4th steps that append to the shared history; divergent play on a shared tail with different drop orders; hand-over through a mutex; concurrent drops of lists sharing a tail) are explored by loom over every interleaving within the bound; each thread's result fingerprints must equal the sequential ones; loom also reports leaked/double-freed Arcs and deadlocks. E1/E2 additionally fingerprint every state before and after expansion (never modified after construction).",
+         "loom sees only primitives reached by the std::sync/std::thread token substitution (site count in evidence); vendor/loom carries a mock of Arc::into_inner; preemption bound as listed per body.", "DESIGN.md §3.6, §4 C18"),
  "C19": ("explicit-state exploration with every named query under catch_unwind, overflow checks on",
          "On every state of E1/E2/E3 every query named in the statement and take_action of every offered action is executed under catch_unwind in a build with overflow-checks=true; any unwind is a violation.",
          "Queries outside their documented phase are not called.", "DESIGN.md §4 C19"),
